@@ -30,6 +30,7 @@ import (
 	"github.com/scrapli/scrapligo/util"
 
 	"github.com/scrapli/scrapligo/driver/options"
+	"golang.org/x/crypto/ssh/knownhosts"
 
 	"verifgo/sim"
 	"verifgo/vlib"
@@ -57,19 +58,18 @@ type c16Step struct {
 }
 
 type c16Case struct {
-	line      string
-	kind      string // system | standard | telnet
-	mode      string // shell | netconf
-	n         int
-	opening   []byte // telnet: bytes the server sends on accept (negotiation + data)
-	ib        []byte // telnet: the data bytes of the opening
-	steps     []c16Step
-	ending    string // drain-close | block-close | block-exit | send-exit
-	endData   []byte // send-exit payload
-	class     string
-	multi     bool // some payload exceeds the read size
-	escapeOff bool // openssh: EscapeChar=none is among the ssh arguments
-	v         c16Variant
+	line    string
+	kind    string // system | standard | telnet
+	mode    string // shell | netconf
+	n       int
+	opening []byte // telnet: bytes the server sends on accept (negotiation + data)
+	ib      []byte // telnet: the data bytes of the opening
+	steps   []c16Step
+	ending  string // drain-close | block-close | block-exit | send-exit
+	endData []byte // send-exit payload
+	class   string
+	multi   bool // some payload exceeds the read size
+	v       c16Variant
 }
 
 // c16Variant selects option / peer flavours of a case.
@@ -80,6 +80,12 @@ type c16Variant struct {
 	sshArgs  []string // openssh: WithSystemTransportOpenArgs
 	defaultN bool     // no WithTransportReadSize: the transport's default read size
 	reject   string   // open-abort scenarios: where the peer refuses (see c16OpenAbort)
+	// ssh-argument dimensions of the system transport (real OpenSSH, and the argv-recording stand-in)
+	cfg        string // ssh config file: "" none, minimal, unrelated, escape, escape-ctrl, system
+	strict     bool   // strict host key checking left on
+	knownHosts bool   // a known-hosts file (holding the server's key) is given
+	user       bool   // a user name is given
+	argvScript bool   // system: the stand-in is started through a script that records its argv (no args override)
 }
 
 type c16Read struct {
@@ -91,17 +97,19 @@ type c16Read struct {
 type c16Fail struct{ kind, detail, sig string }
 
 type c16Out struct {
-	merges   [][3][]byte // concurrent writes: writer A, writer B, what the peer received
-	mergeOK  []bool      // the harness's own projection verdict per merge
-	prefixOK bool        // the ending stops reading early: the reads must be a prefix of the stream
-	events   []string
-	reads    []c16Read
-	peerGot  []byte
-	written  []byte
-	sent     []byte
-	fails    []c16Fail
-	aborted  bool
-	dur      time.Duration
+	argv      []string    // what the stand-in ssh was started with (argvScript)
+	argvModel string      // `c16 argv …` request computing the same from the generated buildOpenArgs
+	merges    [][3][]byte // concurrent writes: writer A, writer B, what the peer received
+	mergeOK   []bool      // the harness's own projection verdict per merge
+	prefixOK  bool        // the ending stops reading early: the reads must be a prefix of the stream
+	events    []string
+	reads     []c16Read
+	peerGot   []byte
+	written   []byte
+	sent      []byte
+	fails     []c16Fail
+	aborted   bool
+	dur       time.Duration
 }
 
 func (o *c16Out) fail(kind, sig, f string, a ...any) {
@@ -149,6 +157,67 @@ func c16TelnetTriples(opening []byte) int {
 		}
 	}
 	return k
+}
+
+var (
+	c16TmpOnce       sync.Once
+	c16TmpDir        string
+	c16StandinScript string
+)
+
+// c16Tmp creates (once) the directory for ssh config / known-hosts files, recorded argument
+// vectors and the argv-recording stand-in script.
+func c16Tmp() string {
+	c16TmpOnce.Do(func() {
+		d, err := os.MkdirTemp("", "verif-c16-")
+		if err != nil {
+			fmt.Fprintln(os.Stderr, "harness:", err)
+			os.Exit(3)
+		}
+		c16TmpDir = d
+		c16StandinScript = d + "/ssh-standin.sh"
+		// stand-in ssh with a visible argv: writes its arguments (one per line) to <dir>/<port>.argv,
+		// then becomes the raw-mode relay between its tty and 127.0.0.1:<the -p port>
+		script := "#!/bin/sh\nport=\"\"; prev=\"\"\nfor a in \"$@\"; do [ \"$prev\" = \"-p\" ] && port=\"$a\"; prev=\"$a\"; done\n" +
+			": > \"" + d + "/$port.argv.tmp\"\nfor a in \"$@\"; do printf '%s\\n' \"$a\" >> \"" + d + "/$port.argv.tmp\"; done\n" +
+			"mv \"" + d + "/$port.argv.tmp\" \"" + d + "/$port.argv\"\n" +
+			"exec \"" + c16Exe + "\" C16 -replay \"relay:127.0.0.1:$port\" --\n"
+		_ = os.WriteFile(c16StandinScript, []byte(script), 0o755)
+	})
+	return c16TmpDir
+}
+
+// c16SSHConfig writes the ssh config file of a variant and returns the option that selects it.
+func c16SSHFileOpts(v c16Variant, seed uint64, hostKeyLine string) []util.Option {
+	var opts []util.Option
+	dir := c16Tmp()
+	body := map[string]string{
+		"minimal":     "Host *\n  ServerAliveCountMax 3\n",
+		"unrelated":   "# unrelated options only\nHost *\n  Compression no\n  TCPKeepAlive yes\n  NumberOfPasswordPrompts 2\n",
+		"escape":      "Host *\n  EscapeChar ~\n",
+		"escape-ctrl": "EscapeChar ^B\nHost *\n  ServerAliveCountMax 3\n",
+	}
+	switch v.cfg {
+	case "":
+	case "system":
+		opts = append(opts, options.WithSSHConfigFileSystem())
+	default:
+		f := fmt.Sprintf("%s/%d.sshconfig", dir, seed)
+		_ = os.WriteFile(f, []byte(body[v.cfg]), 0o600)
+		opts = append(opts, options.WithSSHConfigFile(f))
+	}
+	if v.knownHosts {
+		f := fmt.Sprintf("%s/%d.known_hosts", dir, seed)
+		_ = os.WriteFile(f, []byte(hostKeyLine+"\n"), 0o600)
+		opts = append(opts, options.WithSSHKnownHostsFile(f))
+	}
+	if !v.strict {
+		opts = append(opts, options.WithAuthNoStrictKey())
+	}
+	if len(v.sshArgs) > 0 {
+		opts = append(opts, options.WithSystemTransportOpenArgs(v.sshArgs))
+	}
+	return opts
 }
 
 func c16TransportOptsV(kind, mode string, opening []byte, seed uint64, v c16Variant) ([]util.Option, func() (*c16Conn, error), error) {
@@ -248,12 +317,10 @@ func c16TransportOptsV(kind, mode string, opening []byte, seed uint64, v c16Vari
 		if err != nil {
 			return nil, nil, err
 		}
-		opts := []util.Option{options.WithPort(srv.Port), options.WithAuthNoStrictKey(),
+		opts := []util.Option{options.WithPort(srv.Port),
 			options.WithAuthUsername("u"), options.WithAuthPassword("p"),
 			options.WithTimeoutSocket(c16OpenBound), c16Netconf(mode == "netconf")}
-		if len(v.sshArgs) > 0 {
-			opts = append(opts, options.WithSystemTransportOpenArgs(v.sshArgs))
-		}
+		opts = append(opts, c16SSHFileOpts(v, seed, knownhosts.Line([]string{fmt.Sprintf("[127.0.0.1]:%d", srv.Port)}, srv.HostKey))...)
 		return opts, func() (*c16Conn, error) {
 			s, err := srv.NextSession(c16OpenBound)
 			if err != nil {
@@ -274,6 +341,16 @@ func c16TransportOptsV(kind, mode string, opening []byte, seed uint64, v c16Vari
 		opts := []util.Option{options.WithSystemTransportOpenBin(bin),
 			options.WithSystemTransportOpenArgsOverride([]string{"C16", "-replay", "relay:" + l.Addr(), "--"}),
 			c16Netconf(mode == "netconf")}
+		if v.argvScript {
+			// no override: the transport builds the argument vector itself; the script records it and
+			// finds the relay's port in it
+			c16Tmp()
+			opts = []util.Option{options.WithSystemTransportOpenBin(c16StandinScript), options.WithPort(l.Port), c16Netconf(mode == "netconf")}
+			opts = append(opts, c16SSHFileOpts(v, seed, "[127.0.0.1]:1 ssh-ed25519 AAAAC3NzaC1lZDI1NTE5AAAAIJ0mPd3xYq0cS3t0bT3m1m0o8m3QpXqjJH0Lx0a3kq1V")...)
+			if v.user {
+				opts = append(opts, options.WithAuthUsername("operator"))
+			}
+		}
 		return opts, func() (*c16Conn, error) {
 			c, err := l.Accept(c16OpenBound)
 			if err != nil {
@@ -416,9 +493,25 @@ func c16GenCase(kind, mode string, n int, class string, seed uint64, res *vlib.R
 		if r.Chance(1, 4) {
 			cs.v.kex = r.Pick([]string{"curve25519-sha256", "ecdh-sha2-nistp256", "ecdh-sha2-nistp384", "diffie-hellman-group14-sha256", "diffie-hellman-group14-sha1"})
 		}
+	case "system":
+		if r.Chance(1, 3) { // the transport builds the argument vector itself; the stand-in records it
+			cs.v.argvScript = true
+			cs.v.cfg = []string{"", "minimal", "unrelated", "escape", "escape-ctrl", "system"}[r.Intn(6)]
+			cs.v.strict, cs.v.knownHosts, cs.v.user = r.Chance(1, 2), r.Chance(1, 2), r.Chance(1, 2)
+			if r.Chance(1, 3) {
+				cs.v.sshArgs = [][]string{{"-v"}, {"-o", "EscapeChar=~"}, {"-e", "^B", "-4"}}[r.Intn(3)]
+			}
+		}
 	case "openssh":
+		cs.v.cfg = []string{"", "minimal", "unrelated", "escape", "escape-ctrl", "system"}[r.Intn(6)]
+		if r.Chance(1, 3) { // strict host key checking needs the server's key in a known-hosts file
+			cs.v.strict, cs.v.knownHosts = true, true
+		} else {
+			cs.v.knownHosts = r.Chance(1, 3)
+		}
 		if r.Chance(1, 2) {
-			cs.v.sshArgs = [][]string{{"-c", "aes128-ctr"}, {"-o", "Ciphers=chacha20-poly1305@openssh.com"}, {"-o", "IPQoS=none", "-o", "Ciphers=aes256-gcm@openssh.com"}}[r.Intn(3)]
+			cs.v.sshArgs = [][]string{{"-c", "aes128-ctr"}, {"-o", "Ciphers=chacha20-poly1305@openssh.com"}, {"-o", "IPQoS=none", "-o", "Ciphers=aes256-gcm@openssh.com"},
+				{"-o", "EscapeChar=~"}}[r.Intn(4)] // the last: ssh keeps the first value, the transport's `none` comes first
 		}
 	}
 	if class == "default-n" {
@@ -552,6 +645,18 @@ func c16GenCase(kind, mode string, n int, class string, seed uint64, res *vlib.R
 			}
 		}
 	}
+	if kind == "openssh" || kind == "system" {
+		// lines that start with '~' (the ssh client's escape character on a tty), as the first bytes of
+		// the session and after CR / LF / CR LF, in one Write call or several
+		d := []byte("~~ first\r~~ after cr\n~~ after lf\r\n~~ after crlf ~~ inline\n~?\r~~\r")
+		d = append(d, c16Payload(r, r.Range(1, 40))...)
+		d = append(d, []byte("\n~~")...)
+		var cuts []int
+		if r.Chance(1, 2) {
+			cuts = c16Cuts(r, len(d))
+		}
+		cs.steps = append([]c16Step{{op: "write", data: d, cuts: cuts}}, cs.steps...)
+	}
 	cs.ending = []string{"drain-close", "block-close", "block-exit", "send-exit", "exit-then-write", "close-unread"}[r.Intn(6)]
 	if cs.ending == "close-unread" {
 		cs.endData = c16Payload(r, c16Size(r, n, res))
@@ -623,17 +728,6 @@ func c16ReadUntil(rd *c16Reader, suffix []byte, d time.Duration) bool {
 		acc = append(acc, r.data...)
 	}
 	return true
-}
-
-// c16NoEscape replaces every '~' that follows CR or LF (or starts the payload) by '-'.
-func c16NoEscape(b []byte) []byte {
-	out := append([]byte{}, b...)
-	for i := range out {
-		if out[i] == '~' && (i == 0 || out[i-1] == '\n' || out[i-1] == '\r') {
-			out[i] = '-'
-		}
-	}
-	return out
 }
 
 func c16ReadFull(p io.Reader, n int, d time.Duration) ([]byte, error) {
@@ -770,13 +864,35 @@ func c16RunCase(cs *c16Case, seed uint64) *c16Out {
 			o.aborted = true
 			return o
 		}
-		cs.escapeOff = false
-		if sys, ok := tr.Impl.(*transport.System); ok {
-			for _, a := range sys.OpenArgs {
-				if strings.EqualFold(a, "EscapeChar=none") {
-					cs.escapeOff = true
-				}
+	}
+	if sys, ok := tr.Impl.(*transport.System); ok && (cs.v.argvScript || cs.kind == "openssh") {
+		// the argument vector: what the transport holds after Open, for the stand-in also what the
+		// process really received; the model computes it from the regenerated body of buildOpenArgs
+		o.argv = append([]string{}, sys.OpenArgs...)
+		if cs.v.argvScript {
+			b, err := os.ReadFile(fmt.Sprintf("%s/%d.argv", c16Tmp(), tr.Args.Port))
+			if err != nil {
+				o.fail("machinery", "c16:argv-record", "stand-in did not record its arguments: %v", err)
+			} else if got := strings.Split(strings.TrimSuffix(string(b), "\n"), "\n"); strings.Join(got, "\x00") != strings.Join(o.argv, "\x00") {
+				o.fail("oracle", "c16:system:argv-differs-from-openargs", "the ssh stand-in was started with %q, System.OpenArgs holds %q", got, o.argv)
 			}
+		}
+		hx := func(s string) string { return vlib.Hex([]byte(s)) }
+		var extra [][]byte
+		for _, e := range sys.ExtraArgs {
+			extra = append(extra, []byte(e))
+		}
+		o.argvModel = fmt.Sprintf("c16 argv %s %d %d %s %s %s %s %s %s %s", hx(tr.Args.Host), tr.Args.Port, int64(tr.Args.TimeoutSocket),
+			hx(tr.Args.User), c16b(sys.SSHArgs.StrictKey), hx(sys.SSHArgs.KnownHostsFile), hx(sys.SSHArgs.ConfigFile), hx(sys.SSHArgs.PrivateKeyPath),
+			vlib.HexList(extra), c16b(sys.SSHArgs.NetconfConnection))
+		found := false
+		for i := 0; i+1 < len(o.argv); i++ {
+			if o.argv[i] == "-o" && o.argv[i+1] == "EscapeChar=none" {
+				found = true
+			}
+		}
+		if !found {
+			o.fail("oracle", "c16:"+cs.kind+":argv-escape-char-not-disabled", "the ssh client is started without `-o EscapeChar=none` (config file %q): argv %q", sys.SSHArgs.ConfigFile, o.argv)
 		}
 	}
 	closed := false
@@ -868,11 +984,6 @@ func c16RunCase(cs *c16Case, seed uint64) *c16Out {
 			if !drain(0, 0) {
 				return false
 			}
-		}
-		if cs.kind == "openssh" && !cs.escapeOff {
-			// the ssh client interprets '~' at the start of a line (escape character) unless
-			// EscapeChar=none is among its arguments
-			data = c16NoEscape(data)
 		}
 		if len(cuts) == 0 {
 			cuts = []int{len(data)}
@@ -987,9 +1098,6 @@ func c16RunCase(cs *c16Case, seed uint64) *c16Out {
 				return o
 			}
 		case "cwrite":
-			if cs.kind == "openssh" && !cs.escapeOff {
-				continue
-			}
 			if !drain(0, 0) {
 				return o
 			}
@@ -1324,6 +1432,11 @@ func runC16(c *ctx) {
 	// vlib seeds splitmix64 with seed*gamma, so neighbouring seeds give the same stream shifted by
 	// one draw; a fork (state = one mixed output) decorrelates them. Still only c.rng.
 	c.rng = c.rng.Fork()
+	defer func() {
+		if c16TmpDir != "" {
+			_ = os.RemoveAll(c16TmpDir)
+		}
+	}()
 	exe, err := os.Executable()
 	if err != nil {
 		fmt.Fprintln(os.Stderr, "harness:", err)
@@ -1382,7 +1495,7 @@ func runC16(c *ctx) {
 		}
 		for _, k := range kms {
 			if k.kind == "openssh" {
-				per = c.n(12, 150)
+				per = c.n(18, 150)
 			}
 			for i := 0; i < per; i++ {
 				n := c16ReadSizes[(i+r.Intn(2))%len(c16ReadSizes)]
@@ -1464,6 +1577,35 @@ func runC16(c *ctx) {
 			res.Fail("machinery", mcase[i], "concurrent writes: the model's merge verdict ("+a+") differs from the harness's projection check", "c16:model-vs-spec-merge")
 		}
 		res.Count("merge-verdicts")
+	}
+	// argument vectors: the model's (regenerated buildOpenArgs) against the transport's
+	var alines []string
+	var aidx []int
+	for i := range cases {
+		if outs[i].argvModel != "" {
+			alines = append(alines, outs[i].argvModel)
+			aidx = append(aidx, i)
+		}
+	}
+	for k, a := range c.ask(alines) {
+		i := aidx[k]
+		var want []string
+		if a != "." {
+			for _, h := range strings.Split(a, ",") {
+				b, _ := vlib.UnHex(h)
+				want = append(want, string(b))
+			}
+		}
+		res.Count("argv:" + cases[i].kind + ":cfg=" + cases[i].v.cfg)
+		if cases[i].v.strict {
+			res.Count("argv:strict")
+		}
+		if cases[i].v.knownHosts {
+			res.Count("argv:known-hosts-file")
+		}
+		if strings.Join(want, "\x00") != strings.Join(outs[i].argv, "\x00") {
+			res.Fail("correspondence", cases[i].line, fmt.Sprintf("ssh argument vector: transport %q, model (generated buildOpenArgs) %q", outs[i].argv, want), "c16:"+cases[i].kind+":argv-differs")
+		}
 	}
 	// which byte values travelled in which direction over which transport
 	seenS, seenW := map[string]*[256]bool{}, map[string]*[256]bool{}
